@@ -17,10 +17,11 @@ from cryptography.hazmat.primitives import hashes
 from cryptography.hazmat.primitives.asymmetric import ec, padding, utils as asym_utils
 
 PID = "C15"
-THEOREMS = ["struct_roundtrip", "dc_roundtrip", "dc_roundtrip_p521_refuted", "dc_sig_covers_all", "dc_verify_obligation",
-            "dc_rot_hash_rsa", "dar_embeds_dc_beacon", "dar_binds", "dar_verify_sound", "parse_dispatch_except_known",
-            "parse_dispatch_refuted"]
+THEOREMS = ["struct_roundtrip", "dc_roundtrip", "dc_roundtrip_p521_refuted", "dc_created_roundtrip_except_known",
+            "dc_sig_covers_all", "dc_verify_obligation", "dc_names_rot_key", "dc_rot_hash_rsa", "dar_embeds_dc_beacon", "dar_binds",
+            "dar_verify_sound", "dac_roundtrip", "parse_dispatch_except_known", "parse_dispatch_refuted"]
 KEYDIR = os.path.join(vlib.WORK, PID, "keys")
+TMPDIR = os.path.join(vlib.WORK, PID, "tmp")
 KLASS = {"DebugCredentialCertificateRsa": 0, "DebugCredentialCertificateEcc": 1, "DebugCredentialEdgeLockEnclave": 2}
 KTYPES = ["r2048", "r4096", "p256", "p384", "p521"]
 VERSION_OF = {"r2048": (1, 0), "r4096": (1, 1), "p256": (2, 0), "p384": (2, 1), "p521": (2, 2)}
@@ -393,10 +394,13 @@ def derived_streams(tier, rng, w, dc_cases, dc_results):
             pick.append((c, b))
     soccs = sorted(w.soccs)
     for c, b in pick:
+        light = (not thorough) and len(b) > 1500
         muts = [b, b + b"\xa5" * 7, b[:-1], b[:len(b) // 2], b[:28], b[:27], b[:4], b[:3], b"", b[:40], b[:36], b[:152]]
-        for (ma, mi) in [(1, 0), (1, 1), (2, 0), (2, 1), (2, 2), (3, 0), (0, 2), (2, 3), (1, 2), (258, 0)]:
+        if light:
+            muts = muts[:4]
+        for (ma, mi) in ([(1, 0), (2, 1), (3, 0)] if light else [(1, 0), (1, 1), (2, 0), (2, 1), (2, 2), (3, 0), (0, 2), (2, 3), (1, 2), (258, 0)]):
             muts.append(struct.pack("<2H", ma, mi) + b[4:])
-        for s in rng.sample(soccs, 4 if not thorough else len(soccs)) + [0x12345678]:
+        for s in rng.sample(soccs, (2 if light else 4) if not thorough else len(soccs)) + [0x12345678]:
             muts.append(b[:4] + struct.pack("<L", s) + b[8:])
         if b[:2] == b"\x02\x00":
             fl = struct.unpack_from("<L", b, 36)[0]
@@ -722,25 +726,26 @@ def dc_expr(case, r, w):
 def run(tier):
     rep = vlib.Report(PID, tier)
     rng = vlib.Rng(vlib.seed())
-    os.makedirs(os.path.join(vlib.WORK, PID), exist_ok=True)
+    os.makedirs(TMPDIR, exist_ok=True)
     # (T1) regenerate layouts / tables / database facts from the current source
     gen = None
     try:
         gen = regen_c15.regen()
-        rep.obligation("translate:spsdk/dat/*.py+database->Gen/GenDat.v", True)
+        rep.obligation("translate:spsdk/dat formats, version tables, database facts -> Gen/GenDat.v", True)
     except Exception as ex:  # noqa
-        rep.obligation("translate:spsdk/dat/*.py+database->Gen/GenDat.v", False, repr(ex))
+        rep.obligation("translate:spsdk/dat formats, version tables, database facts -> Gen/GenDat.v", False, repr(ex))
     # (P) proofs
     model_ok, mlog = vlib.coq_make(["Model/DatModel.vo"])
     if not model_ok:
         rep.obligation("build:Model/DatModel.vo (layouts of the model = layouts extracted from the source)", False, mlog)
-    vlib.check_theorems(rep, PID, THEOREMS, ["Proofs/DatProofs.vo"])
+    vlib.check_theorems(rep, PID, THEOREMS, ["Proofs/DatProofs.vo", "Proofs/DatCreateProofs.vo"])
     if tier == "thorough":
         vlib.coqchk(rep, PID, THEOREMS)
     vlib.audit(rep)
     # database facts for the generators / oracles: from the extraction when it worked, else straight from the implementation
     try:
-        db = gen["db"] if gen else vlib.run_impl("c15_impl.py", {"mode": "extract"}, timeout=900)
+        c15_keys.load_pool(KEYDIR)
+        db = gen["db"] if gen else vlib.run_impl("c15_impl.py", {"mode": "extract", "keydir": KEYDIR}, timeout=900)
     except Exception as ex:  # noqa
         rep.obligation("implementation: database facts", False, repr(ex))
         return rep.finish(rule="", trusted_base=[], checker_cmd="")
@@ -759,7 +764,7 @@ def run(tier):
         parts = [[{k: v for k, v in c.items() if not k.startswith("_")} for c in cases[i:i + chunk]]
                  for i in range(0, len(cases), chunk)]
         with ThreadPoolExecutor(max_workers=6) as ex:
-            outs = list(ex.map(lambda part: vlib.run_impl("c15_impl.py", {"mode": "cases", "keydir": KEYDIR, "cases": part},
+            outs = list(ex.map(lambda part: vlib.run_impl("c15_impl.py", {"mode": "cases", "keydir": KEYDIR, "tmpdir": TMPDIR, "cases": part},
                                                           timeout=3000)["results"], parts))
         return [r for o in outs for r in o]
     t_impl = time.time()
@@ -864,7 +869,7 @@ def run(tier):
                 plan.append((i, "validate"))
         try:
             t_model = time.time()
-            mres = vlib.run_model_cases("c15", "Value RotModel DatModel", exprs, shard=(60 if tier == "thorough" else 30), timeout=1500)
+            mres = vlib.run_model_cases("c15", "Value RotModel DatModel", exprs, shard=(60 if tier == "thorough" else 40), timeout=1500)
             vlib.log(f"  model: {len(exprs)} expressions in {time.time() - t_model:.1f} s")
             for (i, kind), mv in zip(plan, mres):
                 c, r = flat[i], impl[i]
@@ -961,14 +966,16 @@ def run(tier):
                     s[k] = s[k][:96] + "..."
         rep.add_stream(name, len(idx), len(distinct), samples=samples, exhaustive=False,
                        extra={"accepted": okc, "rejected_or_error": len(idx) - okc})
+    import shutil
+    shutil.rmtree(TMPDIR, ignore_errors=True)
     return rep.finish(
         rule="cases are drawn from VERIF_SEED over every DAT family/revision of the database x protocol version x RoT key count x "
              "used index; distinct_nontrivial counts distinct accepted outputs (exported credentials / parsed objects)",
-        trusted_base=["Coq 8.16.1 kernel + vm_compute", "tools/regen_c15.py (ast extraction of formats/field orders/tables, database facts)",
+        trusted_base=["Coq 8.16.1 kernel + vm_compute", "tools/regen_c15.py (formats / version tables / database facts as the code computes them)",
                       "hand model Model/DatModel.v tied by correspondence", "Model/RotModel.v + Crypto/Sha2.v (C03 / CryptoRef, imported)",
                       "`cryptography` (OpenSSL) as the independent RSA/ECDSA verifier and PEM decoder",
                       f"model cases compared {ncmp}, outside the modelled domain {nskip}"],
-        checker_cmd="coqc -R . V Props/C15/*.v (after make Proofs/DatProofs.vo)",
+        checker_cmd="coqc -R . V Props/C15/*.v (after make Proofs/DatProofs.vo Proofs/DatCreateProofs.vo)",
         assumptions=["RSA/ECDSA primitives and PEM/DER decoding are black boxes (signature obligations discharged by `cryptography` in the run)",
                      "raw key blobs are never valid UTF-8 PEM text nor DER SubjectPublicKeyInfo",
                      "EdgeLock container version 2 credentials (AHAB certificate) are outside the Coq model",
